@@ -172,8 +172,14 @@ fn build_case(seed: u64, variant: u64) -> CaseA {
                 1 => Mutation::DeleteLog { a, l },
                 2 => Mutation::DeleteOne { a, l, s: vr.range(lo as u64, hi as u64) as u32 },
                 4 => {
+                    // every stored log disappears before call k and is back before a later call
                     let k2 = k + vr.range(1, 3) as usize;
-                    case.plan.push((k2, Mutation::Insert { a, l, from: 0, to: hi + vr.range(0, 2) as u32 }));
+                    for ((a2, l2), (_, hi2)) in case.local.clone() {
+                        if (a2, l2) != (a, l) {
+                            case.plan.push((k, Mutation::DeleteLog { a: a2, l: l2 }));
+                        }
+                        case.plan.push((k2, Mutation::Insert { a: a2, l: l2, from: 0, to: hi2 + vr.range(0, 2) as u32 }));
+                    }
                     Mutation::DeleteLog { a, l }
                 }
                 _ => Mutation::Insert { a, l, from: if case.local.contains_key(&(a, l)) { hi + 1 } else { 0 }, to: hi + vr.range(1, 3) as u32 },
@@ -305,7 +311,12 @@ async fn run_case_a(seed: u64, variant: u64, case: &CaseA) -> RunA {
     }
 }
 
+static WATCHDOG: std::sync::OnceLock<Watchdog> = std::sync::OnceLock::new();
+
 fn emit_a(out: &mut Out, rtm: &tokio::runtime::Runtime, seed: u64, variant: u64) -> RunA {
+    if let Some(w) = WATCHDOG.get() {
+        w.begin(&format!("#{seed}.{variant} (no answer: the session did not return)"));
+    }
     let case = build_case(seed, variant);
     let r = rtm.block_on(run_case_a(seed, variant, &case));
     // nt = the interference made a `get_log_size` view empty although something was needed
@@ -527,6 +538,9 @@ fn topic_metrics_tok(m: &p2panda_sync::protocols::Metrics) -> String {
 }
 
 fn emit_b(out: &mut Out, rtm: &tokio::runtime::Runtime, seed: u64, variant: u64) -> usize {
+    if let Some(w) = WATCHDOG.get() {
+        w.begin(&format!("#{seed}.{variant}.b0 (no answer: the pair did not return)"));
+    }
     let (sides, label, calls) = rtm.block_on(run_case_b(seed, variant));
     for s in sides {
         let n = out.case(&s.request, &s.answer, false);
@@ -548,6 +562,7 @@ fn main() {
     let args = Args::parse();
     let mut out = Out::new(&args.out);
     let rtm = rt();
+    let _ = WATCHDOG.set(Watchdog::start(args.out.clone(), std::time::Duration::from_secs(45), "session-never-returns"));
     if args.mode == "replay" {
         let text = std::fs::read_to_string(args.replay.as_ref().expect("replay file")).unwrap();
         let v: hc::serde_json::Value = hc::serde_json::from_str(&text).unwrap();
